@@ -102,8 +102,7 @@ func DecompressLZW(src *Buffer, skip uint) (dst *Buffer, err error) {
 	lenUnpacked := int(binary.BigEndian.Uint32(source[:4]))
 	reader := lzw.NewReader(bytes.NewBuffer(source[4:]), lzw.LSB, 8)
 	dst = TakeBuffer()
-	dst.Allocate(lenUnpacked)
-	if err := decompress(dst.B, reader); err != nil {
+	if err := decompress(dst, lenUnpacked, reader); err != nil {
 		return nil, err
 	}
 	return
@@ -119,8 +118,7 @@ func DecompressZLIB(src *Buffer, skip uint) (dst *Buffer, err error) {
 		return nil, err
 	}
 	dst = TakeBuffer()
-	dst.Allocate(lenUnpacked)
-	if err := decompress(dst.B, reader); err != nil {
+	if err := decompress(dst, lenUnpacked, reader); err != nil {
 		return nil, err
 	}
 	return
@@ -136,30 +134,29 @@ func DecompressGZIP(src *Buffer, skip uint) (dst *Buffer, err error) {
 		return nil, err
 	}
 	dst = TakeBuffer()
-	dst.Allocate(lenUnpacked)
-
-	if err := decompress(dst.B, reader); err != nil {
+	if err := decompress(dst, lenUnpacked, reader); err != nil {
 		return nil, err
 	}
 	return
 }
 
-func decompress(dst []byte, reader io.Reader) error {
-	total := 0
+// decompress unpacks the stream into dst, which must end up with exactly n bytes. The
+// declared size n comes from the peer: the buffer grows with the data that really
+// arrives instead of being allocated up front.
+func decompress(dst *Buffer, n int, reader io.Reader) error {
 	for {
-		n, e := reader.Read(dst[total:])
-		total += n
+		_, e := dst.ReadDataFrom(reader, 0)
+		if dst.Len() > n {
+			return fmt.Errorf("unpacked size mismatch")
+		}
 		if e == io.EOF {
 			break
-		}
-		if n == 0 {
-			return fmt.Errorf("dst buffer too small")
 		}
 		if e != nil {
 			return e
 		}
 	}
-	if total != len(dst) {
+	if dst.Len() != n {
 		return fmt.Errorf("unpacked size mismatch")
 	}
 
